@@ -77,6 +77,22 @@ def run(run, binfo):
     for ch in table_chars:
         gens.append(([('lit', ch)], {}, {'roles': [ch.lower()]}))
         gens.append(([('lit', ch.lower())], {}, {'roles': ['zz', ch]}))
+    # small scope, exhaustively: every X of length <= 2 over a tiny alphabet that holds the boundary characters (two
+    # cases of a letter, another letter, a blank, a comma) and the empty string, literal or filled from the target,
+    # against every role list of length <= 2 over names built from the same characters (and no roles entry at all)
+    import itertools
+    tiny = ['a', 'A', 'b', ' ', ',']
+    xs = [''] + tiny + [p + q for p, q in itertools.product(tiny, repeat=2)]
+    rolenames = ['', 'a', 'A', 'b', 'ab', 'a ', ' a', 'a,b', 'aa']
+    rolelists = [None, []] + [[r] for r in rolenames] + [[r, q] for r, q in itertools.product(rolenames, repeat=2)]
+    if tier == 'quick':
+        rolelists = rolelists[::2]
+    for x in xs:
+        for rl in rolelists:
+            creds = {'user_id': 'u'} if rl is None else {'roles': rl}
+            gens.append(([('lit', x)], {}, creds))
+            gens.append(([('hole', 'k')], {'k': x}, creds))
+        gens.append(([('hole', 'k')], {}, {'roles': [x, '']}))
     reqs = [[8, 0, enc_parts(p), enc_jv(t), enc_jv(c)] for p, t, c in gens]
     spec = run_batch(reqs)
     cases, wants = [], []
@@ -120,7 +136,7 @@ def run(run, binfo):
                        'input': describe(c), 'model': m, 'observed': i, 'count': len(bad_corr)})
     run.rule = ('%d generated (template, target, credentials) triples over the alphabet %r (literal, placeholder and mixed '
                 'forms; targets with/without the key; credentials without roles, with [], with case variants / prefixes / '
-                'extensions of X) + every single-character name of the regenerated lower-casing table; extracted spec_role '
+                'extensions of X) + the small scope (all X of length <= 2 over {a, A, b, blank, comma} x all role lists of length <= 2) + every single-character name of the regenerated lower-casing table; extracted spec_role '
                 'vs Enforcer.enforce, model vs implementation; non-trivial = distinct allowed cases' % (n, ALPHABET))
 
 
